@@ -27,6 +27,7 @@ const (
 	c13ocWT                    // the request is known to be a writer's
 	c13ocWF                    // the request is known to be a reader's
 	c13ocIter                  // a request is being handled
+	c13ocNoCtx                 // the request is known to carry no context (a writer's)
 )
 
 type c13OcAcc struct {
@@ -43,6 +44,9 @@ type c13OcAcc struct {
 	unresolved           []string
 	unf                  c13Unf
 	nReq                 int
+	nSlotWaits           int
+	waitBad, waitUnknown []string
+	posWait              token.Pos
 	posW, posR, posRefus token.Pos
 }
 
@@ -92,6 +96,33 @@ func c13OuterCancel(c *Ctx, ro *c13Roles) {
 			acc.slotBad = append(acc.slotBad, "the request loop receives from the slot at "+pos(in)+" on a path on which it does not occupy it: it takes the token of the current holder (a writer), so the next request is admitted while that writer still holds the lock")
 		}
 		return st &^ (c13ocHeld | c13ocWaited)
+	}
+	// slotWait: the loop blocks to take the slot on behalf of the current request.
+	// A request that carries a context must be able to give up: the wait is a
+	// select that also has the Done channel of the request's context.
+	slotWait := func(x *C13Ctx, st uint64, in ssa.Instruction, sel *ssa.Select) {
+		acc.nSlotWaits++
+		if !acc.posWait.IsValid() {
+			acc.posWait = instrPos(in)
+		}
+		if st&c13ocNoCtx != 0 {
+			return
+		}
+		if sel != nil {
+			for _, s := range sel.States {
+				if s.Dir != types.RecvOnly {
+					continue
+				}
+				if call, ok := c13StripConv(x.Resolve(s.Chan)).(*ssa.Call); ok && call.Call.IsInvoke() && call.Call.Method != nil && call.Call.Method.Name() == "Done" && namedKey(call.Call.Value.Type()) == "context.Context" {
+					if id, ok := c13FieldOf(x, call.Call.Value); ok && ro.holdCtxInd[id] {
+						return
+					}
+					acc.waitUnknown = append(acc.waitUnknown, "the context whose Done channel is waited for at "+pos(in)+" could not be traced to the request")
+					return
+				}
+			}
+		}
+		acc.waitBad = append(acc.waitBad, "the request loop blocks on the slot at "+pos(in)+" for a request that may carry a context, without also waiting for that context's Done channel: a reader queued behind a writer keeps waiting (and keeps the loop stuck) after its context ended")
 	}
 	response := func(x *C13Ctx, st uint64, in ssa.Instruction) uint64 {
 		at := pos(in)
@@ -190,6 +221,9 @@ func c13OuterCancel(c *Ctx, ro *c13Roles) {
 			case *ssa.Send:
 				switch c13ChanKey(x, v.Chan) {
 				case slot:
+					if st&c13ocIter != 0 {
+						slotWait(x, st, in, nil)
+					}
 					return st | c13ocHeld
 				case respCh:
 					return response(x, st, in)
@@ -253,6 +287,9 @@ func c13OuterCancel(c *Ctx, ro *c13Roles) {
 					}
 				case slot:
 					if s.Dir == types.SendOnly {
+						if st&c13ocIter != 0 {
+							slotWait(x, st, ifi, sel)
+						}
 						return st | c13ocHeld
 					}
 					return slotRecv(st, ifi)
@@ -268,9 +305,24 @@ func c13OuterCancel(c *Ctx, ro *c13Roles) {
 			if c13IsField(nil, cond, ro.holdWrite) {
 				st &^= c13ocWT | c13ocWF
 				if pol {
-					return st | c13ocWT
+					return st | c13ocWT | c13ocNoCtx
 				}
 				return st | c13ocWF
+			}
+			// what the path knows about "this request carries a context"
+			if id, ok := c13FieldOf(nil, cond); ok {
+				if ro.holdCtxInd[id] && !pol || ro.holdWriterInd[id] && pol {
+					return st | c13ocNoCtx
+				}
+			}
+			if cmp, ok := decodeCond(cond, pol); ok && cmp.Op == token.EQL {
+				for _, pr := range [][2]ssa.Value{{cmp.X, cmp.Y}, {cmp.Y, cmp.X}} {
+					if isNilConst(c13StripConv(x.Resolve(pr[1]))) {
+						if id, ok := c13FieldOf(x, pr[0]); ok && ro.holdCtxInd[id] {
+							return st | c13ocNoCtx
+						}
+					}
+				}
 			}
 			return st
 		},
@@ -361,6 +413,17 @@ func c13OuterCancel(c *Ctx, ro *c13Roles) {
 		r.Undecide("OuterCancel: writer/reader grant responses on %s not found (%d/%d) %s", ro.holdResp, acc.nGrantW, acc.nGrantR, whyInc)
 	}
 
+	// (2b) cancellable wait for the slot
+	if acc.nSlotWaits > 0 {
+		if len(acc.waitBad) == 0 && len(acc.waitUnknown) > 0 {
+			r.Undecide("OuterCancel: %s", strings.Join(c13Uniq(c13Sorted(acc.waitUnknown)), "; "))
+		} else {
+			check(acc.waitBad, canon+"cancellable wait", p.Pos(acc.posWait), "the loop waits for the slot together with the Done channel of the request's context (requests without a context wait unconditionally)")
+		}
+	}
+	// (2c) requester side: the reply is always collected
+	c13CheckRequesters(c, ro)
+
 	// (3) reader release: once, entry removed, configured cause
 	rel := c13AnalyseReleases(c, ro, acc)
 	// (4) grace function
@@ -381,18 +444,38 @@ func c13FirstOr(s []string, d string) string {
 // same table and invokes that.
 func c13RangeInvokes(ro *c13Roles, rg *ssa.Range) bool {
 	var flows func(v ssa.Value, depth int) bool
+	visiting := map[ssa.Value]bool{}
 	flows = func(v ssa.Value, depth int) bool {
-		if depth > 4 {
+		if depth > 10 || visiting[v] {
 			return false
 		}
+		visiting[v] = true
+		defer delete(visiting, v)
 		for _, r := range refs(v) {
 			switch x := r.(type) {
+			case *ssa.Slice:
+				if x.X == v && flows(x, depth+1) {
+					return true
+				}
+			case *ssa.Phi:
+				if flows(x, depth+1) {
+					return true
+				}
+			case *ssa.IndexAddr:
+				// an element of the collection the values were gathered into
+				if x.X == v && flows(x, depth+1) {
+					return true
+				}
 			case *ssa.Go:
 				if x.Call.Value == v {
 					return true
 				}
 			case *ssa.Call:
 				if x.Call.Value == v {
+					return true
+				}
+				// gathered with append(...) and invoked afterwards
+				if b, ok := x.Call.Value.(*ssa.Builtin); ok && b.Name() == "append" && flows(x, depth+1) {
 					return true
 				}
 			case *ssa.Defer:
@@ -408,6 +491,9 @@ func c13RangeInvokes(ro *c13Roles, rg *ssa.Range) bool {
 				if x.Val == v {
 					if cell, ok := x.Addr.(*ssa.Alloc); ok && flows(cell, depth+1) {
 						return true
+					}
+					if ia, ok := x.Addr.(*ssa.IndexAddr); ok && flows(ia.X, depth+1) {
+						return true // stored into an array / slice element
 					}
 				}
 			case *ssa.UnOp:
@@ -472,6 +558,26 @@ func c13FromField(p *Prog, x *C13Ctx, v ssa.Value, target FieldID, depth int) bo
 		v = x.Resolve(v)
 	}
 	v = c13StripConv(v)
+	// cmp.Or(x, zero...) is x
+	if call, ok := v.(*ssa.Call); ok {
+		if obj := calleeObj(call); obj != nil && obj.Pkg() != nil && obj.Pkg().Path() == "cmp" && obj.Name() == "Or" {
+			n := 0
+			for _, a := range c13VarArgs(call) {
+				var ra ssa.Value = a
+				if x != nil {
+					ra = x.Resolve(a)
+				}
+				if isNilConst(c13StripConv(ra)) {
+					continue
+				}
+				if !c13FromField(p, x, a, target, depth+1) {
+					return false
+				}
+				n++
+			}
+			return n > 0
+		}
+	}
 	id, ok := c13FieldOf(nil, v)
 	if !ok {
 		return false
@@ -518,7 +624,7 @@ func c13AnalyseReleases(c *Ctx, ro *c13Roles, acc *c13OcAcc) *c13RelInfo {
 	r, p := c.R, c.P
 	info := &c13RelInfo{fns: map[*ssa.Function]bool{}, closed: map[string]bool{}}
 	visitedDone := map[ssa.Instruction]bool{}
-	var onceBad, causeBad []string
+	var onceBad, causeBad, causeUnknown []string
 	nDonePaths := 0
 	var unf c13Unf
 	var incomplete []string
@@ -597,7 +703,17 @@ func c13AnalyseReleases(c *Ctx, ro *c13Roles, acc *c13OcAcc) *c13RelInfo {
 						if c13FromField(p, x, v.Common().Args[0], ro.ocCause, 0) {
 							return st | c13rlCause
 						}
-						causeBad = append(causeBad, "the reader context is cancelled at "+p.Pos(instrPos(in))+" with a cause that is not OuterCancel's configured one")
+						switch a := c13StripConv(x.Resolve(v.Common().Args[0])).(type) {
+						case *ssa.Const, *ssa.Global:
+							causeBad = append(causeBad, "the reader context is cancelled at "+p.Pos(instrPos(in))+" with "+a.Name()+", not OuterCancel's configured cause")
+						default:
+							if id, ok := c13FieldOf(nil, a); ok {
+								causeBad = append(causeBad, "the reader context is cancelled at "+p.Pos(instrPos(in))+" with the value of "+id.String()+", which is not (a copy of) OuterCancel's configured cause")
+							} else {
+								causeUnknown = append(causeUnknown, "the cause passed at "+p.Pos(instrPos(in))+" could not be traced")
+								return st | c13rlCause
+							}
+						}
 					}
 				case *ssa.UnOp:
 					// loads made under the current hold of the table lock (a flag read
@@ -736,6 +852,10 @@ func c13AnalyseReleases(c *Ctx, ro *c13Roles, acc *c13OcAcc) *c13RelInfo {
 	}
 	r.Check(len(onceBad) == 0, "C13.OC-outercancel", canon+"release once", p.Pos(firstPos),
 		"wg.Done and the removal of the table entry happen at most once per reader (once-guard set in the same critical section)", c13FirstOr(onceBad, ""), c13Uniq(c13Sorted(onceBad))...)
+	if len(causeBad) == 0 && len(causeUnknown) > 0 {
+		r.Undecide("OuterCancel reader release: %s", strings.Join(c13Uniq(c13Sorted(causeUnknown)), "; "))
+		return info
+	}
 	r.Check(len(causeBad) == 0, "C13.OC-outercancel", canon+"release cause", p.Pos(firstPos),
 		"reader context cancelled with OuterCancel's configured cause", c13FirstOr(causeBad, ""), c13Uniq(c13Sorted(causeBad))...)
 	return info
@@ -894,4 +1014,153 @@ func c13AnalyseGrace(c *Ctx, ro *c13Roles, acc *c13OcAcc, rel *c13RelInfo) {
 	r.Check(len(bad) == 0, "C13.OC-outercancel", "concurrency/lock.OuterCancel hold grace wait", p.Pos(firstPos),
 		"reader cancelled by a writer only after gracefulTimeout, shutdown or its own release", c13FirstOr(bad, ""), c13Uniq(c13Sorted(bad))...)
 	_ = fmt.Sprint
+}
+
+// c13VarArgs lists the arguments of a call, expanding a variadic slice
+// literal built at the call site (new [n]T; &t[i] = v; slice).
+func c13VarArgs(call *ssa.Call) []ssa.Value {
+	var out []ssa.Value
+	for _, a := range call.Call.Args {
+		if sl, ok := a.(*ssa.Slice); ok {
+			if arr, ok := sl.X.(*ssa.Alloc); ok {
+				found := false
+				for _, r := range refs(arr) {
+					if ia, ok := r.(*ssa.IndexAddr); ok {
+						for _, rr := range refs(ia) {
+							if st, ok := rr.(*ssa.Store); ok && st.Addr == ssa.Value(ia) {
+								out = append(out, st.Val)
+								found = true
+							}
+						}
+					}
+				}
+				if found {
+					continue
+				}
+			}
+		}
+		out = append(out, a)
+	}
+	return out
+}
+
+// c13CheckRequesters: in every exported method that hands a request to the
+// loop, once the hand-over succeeded each return is preceded by the receive of
+// the reply (or by the shutdown case): a requester that gives up after the
+// hand-over leaves a granted hold nobody owns (an acquisition that reports an
+// error would hold something).
+func c13CheckRequesters(c *Ctx, ro *c13Roles) {
+	r, p := c.R, c.P
+	req, reply, closeCh := c13ChanID(ro.ocReq), c13ChanID(ro.holdResp), c13ChanID(ro.ocClose)
+	const (
+		handed = 1 << iota
+		replied
+		closed
+	)
+	n := 0
+	for i := 0; i < ro.oc.NumMethods(); i++ {
+		m := ro.oc.Method(i)
+		if !m.Exported() || m.Name() == "Run" {
+			continue
+		}
+		fn := origin(p.SSA.FuncValue(m))
+		if fn == nil || len(fn.Blocks) == 0 {
+			continue
+		}
+		var bad []string
+		var unf c13Unf
+		sends := 0
+		ex := NewC13Explorer(p)
+		ex.Explore(fn, 0, &C13Hooks{
+			Instr: func(x *C13Ctx, in ssa.Instruction, st uint64) uint64 {
+				switch v := in.(type) {
+				case *ssa.Send:
+					if c13ChanKey(x, v.Chan) == req {
+						sends++
+						return st | handed
+					}
+				case *ssa.UnOp:
+					if v.Op == token.ARROW && c13ChanKey(x, v.X) == reply {
+						return st | replied
+					}
+				case *ssa.Go:
+					// the reply is collected (and the grant undone) by a helper goroutine
+					if t, binds := x.FuncTargetBinds(v.Call.Value); t != nil && st&handed != 0 && c13ReceivesFrom(p, t, binds, reply) {
+						return st | replied
+					}
+				}
+				return st
+			},
+			Branch: func(x *C13Ctx, ifi *ssa.If, taken bool, st uint64) uint64 {
+				if sel, k, ok := C13SelectFired(ifi, taken); ok {
+					s := sel.States[k]
+					switch key := c13ChanKey(x, s.Chan); {
+					case key == req && s.Dir == types.SendOnly:
+						sends++
+						return st | handed
+					case key == reply && s.Dir == types.RecvOnly:
+						return st | replied
+					case key == closeCh && s.Dir == types.RecvOnly:
+						return st | closed
+					}
+				}
+				return st
+			},
+			Return: func(x *C13Ctx, ret *ssa.Return, _ []ssa.Value, st uint64) {
+				if st&handed != 0 && st&(replied|closed) == 0 {
+					bad = append(bad, "return at "+p.Pos(instrPos(ret))+" after the request was handed to the loop, without having received the reply (the loop may have granted the hold meanwhile)")
+				}
+			},
+			Unfollowed: func(x *C13Ctx, call ssa.CallInstruction, st uint64) {
+				if st&handed != 0 {
+					unf.add(p, call)
+				}
+			},
+			Opaque: func(fn *ssa.Function) bool {
+				return fn.Signature.Recv() != nil && ro.isLockType(fn.Signature.Recv().Type())
+			},
+		})
+		if sends == 0 {
+			continue
+		}
+		n++
+		construct := "concurrency/lock.OuterCancel." + m.Name() + " collects the reply"
+		if len(bad) > 0 && (len(unf.list) > 0 || len(ex.Incomplete) > 0) {
+			r.Undecide("%s: %s — but calls could not be followed: %s", construct, bad[0], strings.Join(append(unf.list, ex.Incomplete...), "; "))
+			continue
+		}
+		r.Check(len(bad) == 0, "C13.OC-outercancel", construct, p.Pos(fn.Pos()),
+			"after the hand-over every return is preceded by the receive of the reply (or the shutdown case)",
+			"the requester can give up after its request was handed to the loop: the loop may admit it (reader counted in and registered, reply parked in the channel) while the caller is told it failed, so an acquisition that reports an error holds something nobody will release", c13Uniq(c13Sorted(bad))...)
+	}
+	if n == 0 {
+		r.Undecide("OuterCancel: no exported method hands a request to %s (requester side not resolved)", ro.ocReq)
+	}
+}
+
+// c13ReceivesFrom: every path of fn receives from the channel key.
+func c13ReceivesFrom(p *Prog, fn *ssa.Function, binds []ssa.Value, key string) bool {
+	okAll, n := true, 0
+	ex := NewC13Explorer(p)
+	ex.ExploreBound(fn, binds, 0, &C13Hooks{
+		Instr: func(x *C13Ctx, in ssa.Instruction, st uint64) uint64 {
+			if u, ok := in.(*ssa.UnOp); ok && u.Op == token.ARROW && c13ChanKey(x, u.X) == key {
+				return st | 1
+			}
+			return st
+		},
+		Branch: func(x *C13Ctx, ifi *ssa.If, taken bool, st uint64) uint64 {
+			if sel, k, ok := C13SelectFired(ifi, taken); ok && sel.States[k].Dir == types.RecvOnly && c13ChanKey(x, sel.States[k].Chan) == key {
+				return st | 1
+			}
+			return st
+		},
+		Return: func(x *C13Ctx, ret *ssa.Return, _ []ssa.Value, st uint64) {
+			n++
+			if st&1 == 0 {
+				okAll = false
+			}
+		},
+	})
+	return okAll && n > 0 && len(ex.Incomplete) == 0
 }
